@@ -33,7 +33,7 @@ Proof. exact events_are_changes. Qed.
 Print Assumptions C14_events_are_applied_changes.
 
 Theorem C14_no_event_without_change : forall c t u r,
-  tc_get c t !! u = Some r -> apply_row c (t, u, Some r) = Some (c, []).
+  tc_get c t !! u = Some r -> apply_row c (t, u, false, Some r) = Some (c, []).
 Proof. exact no_event_without_change. Qed.
 Print Assumptions C14_no_event_without_change.
 
